@@ -437,7 +437,7 @@ func (g *gen) fieldType(structIdx int) T {
 			return Slice(n)
 		}
 	case k < 85:
-		return Slice(Prim(g.pick(allPrims)))
+		return Slice(Prim(g.noByte(g.pick(allPrims))))
 	case k < 89 && prof.Maps:
 		return MapOf(Prim(g.pick([]string{"string", "int", "bool"})))
 	case k < 92 && prof.AnyBytesTime:
@@ -450,6 +450,15 @@ func (g *gen) fieldType(structIdx int) T {
 		return Slice(Slice(Prim("string")))
 	}
 	return Ptr(Prim(g.pick(allPrims)))
+}
+
+// noByte: []uint8 IS []byte in Go (base64 in JSON); the type->schema table only speaks of []byte,
+// so slices of uint8 are not generated.
+func (g *gen) noByte(n string) string {
+	if n == "uint8" {
+		return "uint16"
+	}
+	return n
 }
 
 func isIntPrim(n string) bool   { return strings.HasPrefix(n, "int") || strings.HasPrefix(n, "uint") }
@@ -679,6 +688,9 @@ func (g *gen) simpleParamType(in string) T {
 	}
 	if prof.ParamTypeLevel >= 2 {
 		if in == "query" && g.chance(0.2) {
+			if t.K == "prim" {
+				t = Prim(g.noByte(t.Name))
+			}
 			return Slice(t)
 		}
 		if in != "path" && g.chance(0.3) {
@@ -768,7 +780,7 @@ func (g *gen) retType() *T {
 	case k < 45 || (len(structs) == 0 && k < 80):
 		t = Prim(g.pick(allPrims))
 		if g.chance(0.2) {
-			t = Slice(t)
+			t = Slice(Prim(g.noByte(t.Name)))
 		}
 		if g.chance(0.15) {
 			t = Ptr(Prim(g.pick(allPrims)))
